@@ -4,10 +4,12 @@ CONSTANTS
   MaxLen2 = 3
   MaxLenPre = 4
   Ms = {0, 2}
-  Pres = {"none", "discard", "break", "sel", "post"}
+  Pres = {"none", "discard", "break", "sel", "post", "ind"}
   D5_TimeoutToLastAction = TRUE
   D15_BreakBypassesHold = TRUE
   M_BusyIgnoresSelector = TRUE
   M_PropagateResetsBusyFirst = TRUE
+  M_FlushCopiesBuffer = TRUE
+  M_StartCheckIsTheTemplates = TRUE
 INVARIANTS TypeOK TimeoutOnlyWhileJoining BusyIffJoining JoiningHasInitial StatementOK ExplainedByDeliveredTimeouts DevSwitched Export
 CHECK_DEADLOCK FALSE
